@@ -81,7 +81,7 @@ def cases(tier, seed):
 
 def _spec(case):
     amp, det = waveforms()[case["wf"]]
-    spec = {"coords": kit.SHAPES["bent3"], "ids": ["a", "b", "c"], "device": "mod" if case["mod"] else "mock", "basis": "rydberg", "pulses": []}
+    spec = {"coords": kit.SHAPES["bent3"], "ids": ["c", "a", "b"], "device": "mod" if case["mod"] else "mock", "basis": "rydberg", "pulses": []}
     ch = case["channel"]
     if ch in ("global", "dmm", "global+local"):
         spec["pulses"].append({"amp": amp, "det": det, "phase": 0.4})
